@@ -2,6 +2,7 @@ import Hgxv.Model.C18
 import Hgxv.Proofs.C18RW
 import Hgxv.Proofs.C18Cont
 import Hgxv.Proofs.C18Conn
+import Hgxv.Proofs.C18Hist
 import Mathlib.Tactic.NormNum
 /-! # C18 — random walks are stochastic and stationary; contagion exact when deterministic
 
@@ -291,6 +292,29 @@ theorem C18_order_irrelevant (f : Nat → Rat) (rate : Rat) (I : Nat → Bool) (
     loopHits f rate (l.map I) p = loopHits f rate (l'.map I) p := by
   rw [loopHits_eq_tries, loopHits_eq_tries, (h.map I).count_eq]
 
+/-! ## histories: only the content of the hypergraph matters -/
+
+/-- `Hypergraph.get_edges()` lists the stored hyperedges in the order of an internal dictionary, which depends on the
+history of the object (removal + re-insertion moves a hyperedge to the end; copied, saved + loaded, rebuilt objects may
+list the same hyperedges differently).  Every routine of the model is invariant under a permutation of that list:
+the connectivity assertion, the transition matrix, the stationary state, the densities, the replayed walks, the whole
+contagion run (counts, fractions, number of draws consumed, for every draw stream) and the closed-form spreading are
+functions of the content only.  (The correspondence loads the canonical listing whatever history built the object.) -/
+theorem C18_listing_irrelevant (es es' : List Edge) (h : es.Perm es') :
+    connectedB es = connectedB es' ∧ kEntry es = kEntry es' ∧ transitionMatrix es = transitionMatrix es'
+    ∧ stationary es = stationary es'
+    ∧ (∀ N t v, densityList es N t v = densityList es' N t v)
+    ∧ (∀ N s cs, walk es N s cs = walk es' N s cs)
+    ∧ (∀ nodes keys r f I0 T, counts es nodes keys r f I0 T = counts es' nodes keys r f I0 T
+        ∧ fractions es nodes keys r f I0 T = fractions es' nodes keys r f I0 T
+        ∧ consumed es nodes keys r f I0 T = consumed es' nodes keys r f I0 T)
+    ∧ (∀ nodes keys r n I, spreadCounts es nodes keys r n I = spreadCounts es' nodes keys r n I) := by
+  refine ⟨connectedB_perm h, kEntry_perm h, transitionMatrix_perm h, stationary_perm h, densityList_perm h,
+    walk_perm h, fun nodes keys r f I0 T => ?_, spreadCounts_perm h⟩
+  unfold fractions counts consumed
+  simp only [runStates_perm h]
+  exact ⟨trivial, trivial, trivial⟩
+
 /-! ## non-vacuity: the hypotheses hold on concrete non-trivial inputs and the theorems apply -/
 
 /-- triangle + edge, non-regular: `d = (4, 4, 5, 1)` -/
@@ -356,3 +380,7 @@ example : spread exC exNodes ⟨1, 1, 0⟩ exI0 1 = true :=
     (Or.inl ⟨rfl, Or.inl ⟨rfl, 0, by decide, rfl, [0, 1], by decide, rfl, by decide, by decide⟩⟩)
 example : loopHits exF (1 / 2) ([3, 0, 1].map exI0) 0 = loopHits exF (1 / 2) ([0, 1, 3].map exI0) 0 :=
   C18_order_irrelevant exF (1 / 2) exI0 [3, 0, 1] [0, 1, 3] (by decide) 0
+example : [[0, 1, 2], [2, 3]].Perm [[2, 3], [0, 1, 2]] := by decide
+example : kEntry [[2, 3], [0, 1, 2]] 4 2 3 = 1 / 5 := by
+  rw [← (C18_listing_irrelevant exE [[2, 3], [0, 1, 2]] (by decide)).2.1]
+  rw [C18_entry exE 4 exValid]; simp [shared, deg2, exE]
